@@ -45,6 +45,18 @@ CHECKS = {
  "C19": ("runtime monitoring: partition-model monitor (label vector) over generated call histories on the real UnionFind incl. out-of-range arguments and documented panics, representative-stability monitor between unions, raw parent/rank invariant probe; ASan + Miri legs for the get_unchecked paths",
          "Exploration. ~4.8*10^4 histories per quick run over four index widths (u8 up to all 256 elements).",
          "Model trusted.", "DESIGN.md 5/C19"),
+ "C03": ("runtime monitoring: simple-graph reference-model monitor over generated operation histories on the real GraphMap (3 node-value types x 2 edge types x 3 hashers incl. an all-collide hasher), full sweep of every query for every key and ordered pair after every operation, indexing-bijection and conversion monitors",
+         "Exploration. ~1.9*10^4 histories per quick run; return values and the complete observable state are compared with the model after each operation.",
+         "Model trusted; key universe of 12 values per type.", "DESIGN.md 5/C03"),
+ "C04": ("runtime monitoring: simple-graph reference-model monitor keyed by node id over generated histories on the real MatrixGraph (growth runs across capacity steps, removal / id reuse), plus a storage probe through the verif-hooks exporter (occupied cells == model edges, nb_edges, removed ids); ASan + Miri legs for the unsafe row relocation",
+         "Exploration. ~2.2*10^4 histories per quick run; both row-move branches and both id-allocation branches are confirmed reached by hook counters.",
+         "Model trusted; mutations only between existing nodes (the property's domain).", "DESIGN.md 5/C04"),
+ "C06": ("runtime monitoring: visit-trait consistency checker (one expected edge list per view, computed by the harness) applied to every graph type in hole-ridden states and to Reversed / UndirectedAdaptor / NodeFiltered / EdgeFiltered / Frozen and depth-2 stackings",
+         "Exploration. ~1.3*10^5 generated states per quick run x up to 20 views each; every trait method is compared with the expected view for every node and ordered pair.",
+         "Checker trusted; UndirectedAdaptor self-loops accepted once or twice; two known-finding signatures (UndirectedAdaptor::edges orientation) are matched exactly.", "DESIGN.md 5/C06"),
+ "C14": ("runtime monitoring: index-free DAG reference model (unique weights) over generated histories on the real Acyclic<DiGraph> / Acyclic<StableDiGraph>, invariant monitor after every operation (acyclicity, order lists exactly the live nodes, edges forward, range/position consistency, raw order maps via the verif-hooks exporter), is_valid_edge prediction monitor",
+         "Exploration. ~8*10^4 histories per quick run with frequent rejected insertions, removals of non-last nodes and removals of absent nodes.",
+         "Model trusted; insertions only between live nodes (absent-node insertion is undocumented).", "DESIGN.md 5/C14"),
 }
 REASON_PENDING = "check under construction in this round (runtime monitoring applies; see DESIGN.md section 5)"
 
